@@ -979,7 +979,7 @@ func main() {
 		fmt.Println(len(configs(false)), len(configs(true)))
 	}
 	h.Main("C07", "model_checking",
-		"per configuration (scheme x derived key size x HKDF hash x tag alg/size x segment size with a 1-byte first segment x first-segment offset x subtle/keyset path): (1) writer BFS to fixpoint over Write(n) for every n in 0..S+2 and {2S,2S+1,3S+1} and Close, state = reflective dump of the writer + emitted bytes, emitted stream byte-identical to the reference encoding and decoded by the reference; (2) reader BFS to fixpoint per plaintext length over Read(len) x source answer policy {all, 1 byte, 2 bytes, half, n>0 with io.EOF} (and constructor policy), single key and keysets of 1..3 keys with the real key at every position, state = dump of the reader (incl. decryptReader/unreader) + source offset, output always a plaintext prefix, EOF exactly at the end, completion probe from every state; (3) manipulation catalogue (every truncation, every byte altered, segments dropped/duplicated/swapped/foreign, last-flag confusion, appended data, header edits, other AD, other key) x read sizes x source policies: error instead of clean EOF and only plaintext-prefix bytes before it; (4) persistent fault of the underlying writer from every call index and of the underlying reader at every byte offset must surface.",
+		"per configuration (scheme x derived key size x HKDF hash x tag alg/size x segment size with a 1-byte first segment x first-segment offset x subtle/keyset path): (1) writer BFS to fixpoint over Write(n) for every n in 0..S+2 and {2S,2S+1,3S+1} and Close, state = reflective dump of the writer + emitted bytes, emitted stream byte-identical to the reference encoding and decoded by the reference; (2) reader BFS to fixpoint per plaintext length over Read(len) x source answer policy {all, 1 byte, 2 bytes, half, n>0 with io.EOF} (and constructor policy), single key and keysets of 1..3 keys with the real key at every position, state = dump of the reader (incl. decryptReader/unreader) + source offset, output always a plaintext prefix, EOF exactly at the end, completion probe from every state; (3) manipulation catalogue (every truncation, every byte altered, segments dropped/duplicated/swapped/foreign, last-flag confusion, appended data, header edits, other AD, other key) x read sizes x source policies: error instead of clean EOF and only plaintext-prefix bytes before it; (4) persistent fault of the underlying writer from every call index and of the underlying reader at every byte offset must surface; (5) the public segmenting layer subtle/noncebased driven directly with a recording reference segment cipher through both dispatch paths (with / without the WithDst fast path): segment boundaries and nonces prefix||be32(i)||last exact for every write chunking, plaintext exact for every read chunking, every truncation / byte flip / segment drop, swap, duplication rejected.",
 		[]h.Section{
 			{Name: "writer-bfs", Body: writerSection, Bound: -1},
 			{Name: "reader-bfs", Body: readerSection, Bound: -1},
@@ -987,5 +987,6 @@ func main() {
 			{Name: "writer-faults", Body: writerFaultSection, Bound: -1},
 			{Name: "reader-faults", Body: readerFaultSection, Bound: -1},
 			{Name: "template-size-segments", Body: largeSegmentSection, Bound: -1},
+			{Name: "noncebased-custom", Body: nonceBasedSection, Bound: -1},
 		})
 }
